@@ -332,6 +332,7 @@ def c044(ctx):
     guarded_answers(ctx)
     c048(ctx)
     c049(ctx)
+    c0410(ctx)
     # ---- C04.6
     rp = P.fn('ripd::continuities::ContinuityStore::replay_events')
     ctx.touch(rp)
@@ -464,3 +465,24 @@ def c049(ctx, rid='C04.9'):
                    'set_len is applied to %s' % ('a file this function just created' if ok else
                                                  'an EXISTING file (%s): a torn cache is trimmed until it passes validation instead of being rebuilt from truth' % (', '.join(other) or 'handle not created here')), line=s.line)
     ctx.floor(rid, 'File::set_len sites in the store code', n, 3)
+
+
+def c0410(ctx, rid='C04.10'):
+    """what was read from a cache file is what gets parsed: inside a read loop of the cache
+    modules the byte buffers are never shortened by the reader itself."""
+    P = ctx.prog
+    ctx.rule(rid, 'what was read is what is parsed: in every read loop of the cache modules (read / read_exact inside a loop) no shrinking operation (truncate / drain / pop / split_off / clear / retain / remove) is applied to a byte buffer in that loop — an unterminated or odd-looking tail is handed to the line parser (which fails the scan, so the store falls back to truth), never trimmed away by the reader: a torn last line means the sidecar is BEHIND the log, and the frames before it are a stale answer.')
+    SHR = r'alloc::vec::Vec::<T, A>::(truncate|drain|pop|split_off|clear|retain|remove|swap_remove|dedup\w*)$'
+    n = 0
+    for f in P.find_fns(r'^ripd::(continuity_stream_cache|continuity_seek_index|message_ordinal_index|compaction_checkpoint_index)::'):
+        for r in f.calls(r'std::io::Read>::(read_exact|read|read_to_end)$|^std::io::Read::(read_exact|read|read_to_end)$'):
+            h = f.innermost_loop(r.bb)
+            if h is None:
+                continue
+            n += 1
+            ctx.touch(f)
+            body = f.loops()[h]
+            sh = [s_ for s_ in f.sites() if re.search(SHR, s_.callee) and 'u8' in (s_.full or '') and s_.bb in body]
+            ctx.ob(rid, f, 'read-bytes-reach-the-parser', not sh, 'read loop at line %d: %s' % (r.line, 'no byte buffer is shortened inside it' if not sh else
+                   '%s (line %d) shortens a byte buffer inside the loop: bytes that were read never reach the parser' % (sh[0].name, sh[0].line)), line=sh[0].line if sh else r.line)
+    ctx.floor(rid, 'read loops in the cache modules', n, 1)
